@@ -327,18 +327,18 @@ pub fn run(o: Oracle, tier: Tier, seed: u64) -> i32 {
 
     // layer 2: contiguous small keys and counter-mode scripts
     let r = match (o, tier) {
-        (Oracle::C01, Tier::Quick) => 96,
+        (Oracle::C01, Tier::Quick) => 128,
         (Oracle::C01, Tier::Thorough) => 1024,
-        (Oracle::C03, Tier::Quick) => 24,
+        (Oracle::C03, Tier::Quick) => 40,
         (Oracle::C03, Tier::Thorough) => 160,
     };
     let l2 = layer2_range_cases(r);
     l2.par_iter().for_each(|c| run_case(&report, o, &cl, c, false, false));
     report.count("small_key_range_logins", l2.len() as u64);
     let n_scripts: u64 = match (o, tier) {
-        (Oracle::C01, Tier::Quick) => 1 << 15,
+        (Oracle::C01, Tier::Quick) => 1 << 18,
         (Oracle::C01, Tier::Thorough) => 1 << 24,
-        (Oracle::C03, Tier::Quick) => 1 << 12,
+        (Oracle::C03, Tier::Quick) => 1 << 15,
         (Oracle::C03, Tier::Thorough) => 1 << 20,
     };
     (0..n_scripts).into_par_iter().for_each(|i| {
